@@ -205,6 +205,13 @@ Theorem C10_search_failures_reach_the_table :
     ["run_search"; "flush"; "sync"] = true.
 Proof. vm_compute. reflexivity. Qed.
 
+(* "the same process can afterwards run further searches that complete
+   correctly": the per-file reset of the sequence definitions happens before
+   the file is read, so it cannot be skipped by a failure mid-file *)
+Theorem C10_definitions_reset_before_reading :
+  resets_before_reading sk_run_search = true.
+Proof. vm_compute. reflexivity. Qed.
+
 (* every FileSearchException raised in task.py / search.py is built from
    text only: the object a worker pickles to report its failure never holds
    the original exception (which need not be picklable) *)
@@ -573,6 +580,7 @@ Print Assumptions C10_plain_constructor_and_accessor.
 Print Assumptions C10_exceptions_cross_processes.
 Print Assumptions C10_search_failures_reach_the_table.
 Print Assumptions C10_only_text_crosses_processes.
+Print Assumptions C10_definitions_reset_before_reading.
 Print Assumptions C10_facts_ok.
 Print Assumptions C10_execute_mapping.
 Print Assumptions C10_main_mapping.
